@@ -94,7 +94,13 @@ func migrateApplyRun(cmd *cobra.Command, args []string, flags migrateApplyFlags,
 		return err
 	}
 	opts = append(opts, migrate.WithOperatorVersion(operatorVersion()), migrate.WithLogger(report))
-	ex, err := migrate.NewExecutor(client.Driver, dir, rrw, opts...)
+	prrw := rrw
+	if flags.dryRun {
+		// The Executor may write a baseline revision while computing
+		// the pending files. Skip it if the --dry-run flag is given.
+		prrw = &dryRunRevisions{rrw}
+	}
+	ex, err := migrate.NewExecutor(client.Driver, dir, prrw, opts...)
 	if err != nil {
 		return err
 	}
